@@ -49,6 +49,9 @@ pub enum C03Case {
         /// bytes appended to the file after all digests were computed (they are payload bytes)
         #[serde(default, with = "crate::engine::hexser")]
         trailing: Vec<u8>,
+        /// PAYLOADDIGESTALGO carries 1 + algo_repeat (equal) items
+        #[serde(default)]
+        algo_repeat: u8,
     },
     /// one bit of hand-encoded base package `base` flipped
     BitFlip { base: u8, bit: u32 },
@@ -103,11 +106,11 @@ fn construct(payload: &[u8], name: &str, md5: &Option<Dk>, sha1: &Option<Dk>, sh
 
 #[allow(clippy::too_many_arguments)]
 fn construct_multi(payload: &[u8], name: &str, md5: &Option<Dk>, sha1: &Option<Dk>, sha256: &Option<Dk>, pd: &Option<(Dk, u32)>, order: &[u16], extra: &[bool]) -> Vec<u8> {
-    construct_full(payload, name, md5, sha1, sha256, pd, order, extra, 0, &[])
+    construct_full(payload, name, md5, sha1, sha256, pd, order, extra, 0, &[], 0)
 }
 
 #[allow(clippy::too_many_arguments)]
-fn construct_full(payload: &[u8], name: &str, md5: &Option<Dk>, sha1: &Option<Dk>, sha256: &Option<Dk>, pd: &Option<(Dk, u32)>, order: &[u16], extra: &[bool], size_tags: u8, trailing: &[u8]) -> Vec<u8> {
+fn construct_full(payload: &[u8], name: &str, md5: &Option<Dk>, sha1: &Option<Dk>, sha256: &Option<Dk>, pd: &Option<(Dk, u32)>, order: &[u16], extra: &[bool], size_tags: u8, trailing: &[u8], algo_repeat: u8) -> Vec<u8> {
     let mut main = filepkg::basic_entries(name);
     if let Some((k, algo)) = pd {
         let correct = digests::sha256_hex(&[payload]);
@@ -118,7 +121,7 @@ fn construct_full(payload: &[u8], name: &str, md5: &Option<Dk>, sha1: &Option<Dk
         }
         let refs: Vec<&str> = items.iter().map(|s| s.as_str()).collect();
         main.push((tags::PAYLOADDIGEST, Val::sa(&refs)));
-        main.push((tags::PAYLOADDIGESTALGO, Val::Int32(vec![*algo])));
+        main.push((tags::PAYLOADDIGESTALGO, Val::Int32(vec![*algo; 1 + (algo_repeat % 3) as usize])));
     }
     main.sort_by_key(|e| e.0);
     permute(&mut main, order, 3);
@@ -207,7 +210,7 @@ pub fn expectation(bytes: &[u8]) -> Expect {
             let dv = fmt::decode_entry(seg.hdr.store(bytes), d);
             let av = fmt::decode_entry(seg.hdr.store(bytes), a);
             match (dv, av) {
-                (Some(Val::StrArray(items)), Some(Val::Int32(algo))) if !items.is_empty() && algo.len() == 1 => {
+                (Some(Val::StrArray(items)), Some(Val::Int32(algo))) if !items.is_empty() && !algo.is_empty() && algo.iter().all(|a| *a == algo[0]) => {
                     if algo[0] != 8 {
                         bad_algo = true;
                     } else {
@@ -261,7 +264,7 @@ impl Property for C03 {
         ]
     }
     fn required_labels(&self, _t: Tier) -> Vec<&'static str> {
-        vec!["size-tag-smaller-than-file", "multi-item-payload-digest", "permuted-index", "expect-ok", "expect-mismatch", "expect-anyerr", "only-md5-wrong", "only-sha1-wrong", "only-sha256-wrong", "only-payload-wrong", "algo-known-unsupported", "algo-unknown", "bitflip"]
+        vec!["multi-item-digest-algo", "size-tag-smaller-than-file", "multi-item-payload-digest", "permuted-index", "expect-ok", "expect-mismatch", "expect-anyerr", "only-md5-wrong", "only-sha1-wrong", "only-sha256-wrong", "only-payload-wrong", "algo-known-unsupported", "algo-unknown", "bitflip"]
     }
     fn phases(&self, tier: Tier) -> Vec<Phase<C03Case>> {
         let bits: Vec<(u8, u32)> = self.flip_bases.iter().enumerate().flat_map(|(i, b)| (0..b.len() as u32 * 8).map(move |bit| (i as u8, bit))).collect();
@@ -271,11 +274,11 @@ impl Property for C03 {
             Phase::Enumerate { name: "every-bit-flip", total: bits.len() as u64, exhaustive: true, gen: Arc::new(move |i| b2.get(i as usize).map(|(base, bit)| C03Case::BitFlip { base: *base, bit: *bit })) },
             Phase::Random {
                 name: "constructed",
-                cases: tier.pick(400_000, 8_000_000),
+                cases: tier.pick(400_000, 40_000_000),
                 strat: Arc::new(|| {
                     let algo = prop_oneof![6 => Just(8u32), 2 => proptest::sample::select(vec![1u32, 9, 10, 11, 12, 14]), 2 => proptest::sample::select(vec![0u32, 2, 3, 7, 13, 255, u32::MAX]), 1 => any::<u32>()];
-                    (proptest::collection::vec(any::<u8>(), 0..40), "[a-z]{1,8}", proptest::option::weighted(0.6, dk()), proptest::option::weighted(0.6, dk()), proptest::option::weighted(0.7, dk()), proptest::option::weighted(0.6, (dk(), algo)), prop_oneof![2 => Just(vec![]), 1 => proptest::collection::vec(any::<u16>(), 12)], prop_oneof![4 => Just(vec![]), 1 => proptest::collection::vec(any::<bool>(), 1..3)], (prop_oneof![3 => Just(0u8), 2 => 1u8..6], prop_oneof![3 => Just(vec![]), 1 => proptest::collection::vec(any::<u8>(), 1..9)]))
-                        .prop_map(|(payload, name, md5, sha1, sha256, payload_digest, order, extra_payload_digests, (size_tags, trailing))| C03Case::Constructed { payload, name, md5, sha1, sha256, payload_digest, order, extra_payload_digests, size_tags, trailing })
+                    (proptest::collection::vec(any::<u8>(), 0..40), "[a-z]{1,8}", proptest::option::weighted(0.6, dk()), proptest::option::weighted(0.6, dk()), proptest::option::weighted(0.7, dk()), proptest::option::weighted(0.6, (dk(), algo)), prop_oneof![2 => Just(vec![]), 1 => proptest::collection::vec(any::<u16>(), 12)], prop_oneof![4 => Just(vec![]), 1 => proptest::collection::vec(any::<bool>(), 1..3)], (prop_oneof![3 => Just(0u8), 2 => 1u8..6], prop_oneof![3 => Just(vec![]), 1 => proptest::collection::vec(any::<u8>(), 1..9)], prop_oneof![4 => Just(0u8), 1 => 1u8..3]))
+                        .prop_map(|(payload, name, md5, sha1, sha256, payload_digest, order, extra_payload_digests, (size_tags, trailing, algo_repeat))| C03Case::Constructed { payload, name, md5, sha1, sha256, payload_digest, order, extra_payload_digests, size_tags, trailing, algo_repeat })
                         .boxed()
                 }),
             },
@@ -284,7 +287,10 @@ impl Property for C03 {
     fn check(&self, case: &C03Case) -> Outcome {
         let mut o = Outcome::new();
         let bytes = match case {
-            C03Case::Constructed { payload, name, md5, sha1, sha256, payload_digest, order, extra_payload_digests, size_tags, trailing } => {
+            C03Case::Constructed { payload, name, md5, sha1, sha256, payload_digest, order, extra_payload_digests, size_tags, trailing, algo_repeat } => {
+                if *algo_repeat % 3 != 0 && payload_digest.is_some() {
+                    o.label("multi-item-digest-algo");
+                }
                 if *size_tags != 0 {
                     o.label("size-tag");
                     if !trailing.is_empty() || *size_tags > 3 {
@@ -311,7 +317,7 @@ impl Property for C03 {
                         o.label("algo-unknown");
                     }
                 }
-                construct_full(payload, name, md5, sha1, sha256, payload_digest, order, extra_payload_digests, *size_tags, trailing)
+                construct_full(payload, name, md5, sha1, sha256, payload_digest, order, extra_payload_digests, *size_tags, trailing, *algo_repeat)
             }
             C03Case::BitFlip { base, bit } => {
                 o.label("bitflip");
